@@ -166,7 +166,9 @@ def check_tree(d, M, seed):
 
 TWIN_RECIPES = [dict(file="a-decimal.md", title="A decimal", servings=2, links=[], raw="# A decimal for 2\n\nAdd {0.5} tsp.\n\n    0.5 tsp salt\n    1.5 kg flour\n    2.0 eggs\n"),
                 dict(file="b-fraction.md", title="B fraction", servings=2, links=[], raw="# B fraction for 2\n\nAdd {1/2} tsp.\n\n    1/2 tsp salt\n    1 1/2 kg flour\n    2 eggs\n"),
-                dict(file="c-upper.md", title="C upper", servings=2, links=[], raw="# C upper for 2\n\n    1/2 TSP salt\n    3/2 Kg flour\n")]
+                dict(file="c-upper.md", title="C upper", servings=2, links=[], raw="# C upper for 2\n\n    1/2 TSP salt\n    3/2 Kg flour\n"),
+                # a second plain top-level heading further down, and prose with scaled values after it
+                dict(file="d-two-headings.md", title="D scones", servings=2, links=[], raw="# D scones for 2\n\nRub in {50} g.\n\n    200 g flour\n    50 g butter\n\n# Notes\n\nServe {2} each.\n\n# More for 1\n\ntext\n")]
 
 
 def check_fresh_processes(d, M, seed):
@@ -195,6 +197,9 @@ def check_fresh_processes(d, M, seed):
             results["here"] = digest(scratch / "out-here")
         except Exception as e:  # noqa
             results["here"] = {"raises": type(e).__name__}
+        for mode, r in results.items():
+            if "raises" in r:
+                return [("C17:generation-of-a-valid-tree-raises", "%s: %s" % (mode, r["raises"]))]
         if results["sorted"] != results["rev"]:
             diff = sorted(f for f in set(results["sorted"]) | set(results["rev"]) if results["sorted"].get(f) != results["rev"].get(f))
             out.append(("C17:output-depends-on-listing-order-or-seed", "fresh interpreters, listing sorted vs reversed: %r differ" % diff[:4]))
@@ -222,7 +227,7 @@ def check_inplace_edit(d, M):
         for rel, dd in gen_site.walk(d):
             if dd["readme"]:
                 dd["readme"]["title"] = dd["readme"]["title"] + " rewritten"
-                links = "\n\n".join(("![%s](%s)" if lab.startswith("I") else "[%s](%s)") % (lab, url) for lab, url, _ in dd["readme"]["links"])
+                links = "\n\n".join(gen_site.link_md(lab, url) for lab, url, _ in dd["readme"]["links"])
                 p = (src / rel / dd["readme"]["file"]) if rel else (src / dd["readme"]["file"])
                 with open(p, "r+") as f:        # the same file, rewritten in place: the directory itself is not touched
                     f.seek(0)
